@@ -156,3 +156,45 @@ def merge_counts(pairs):
     for c, a in pairs:
         d[a] = d[a] + c if a in d else c
     return d
+
+
+def pool(T):
+    """named atoms of a table used by the harness shapes"""
+    return dict(X=T.Fe, Xi=T.Fe[56], D=T.D, Xq=T.Fe.ion[2], Xiq=T.Fe[56].ion[3], Y=T.O, Yi=T.O[18],
+                Z=T.Si, H=T.H, H1=T.H[1], W=T.Ni, Wi=T.Ni[58], C=T.C, T=T.T, Yq=T.O.ion[-2], Hq=T.H.ion[1],
+                Dq=T.D.ion[1], N=T.N, Ca=T.Ca)
+
+
+def sym_pool(E, tag, keys, neutron=True, absorbing=True, natural=True, density=False):
+    """Private table `tag`; the atoms named by keys get symbolic mass (and neutron data).
+    Returns (T, atoms, data) with data[key] = AtomData for the oracle."""
+    T = private_table(tag, neutron=neutron)
+    P = pool(T)
+    atoms = [P[k] for k in keys]
+    seen = {}
+    for k, a in zip(keys, atoms):
+        b = base_of(a)
+        if b not in seen:
+            sym_mass(E, b, k)
+            if neutron:
+                sym_neutron(E, b, k, absorbing=absorbing)
+            seen[b] = k
+    if natural:
+        for k, a in zip(keys, atoms):
+            b = base_of(a)
+            el = getattr(b, 'element', None)
+            if el is not None and el not in seen:
+                sym_mass(E, el, k + 'nat')
+                seen[el] = k + 'nat'
+    if density:
+        for k, a in zip(keys, atoms):
+            b = base_of(a)
+            el = getattr(b, 'element', b)
+            if not getattr(el, '_vsym_rho', None) == id(E):
+                el._density = E.real(k + '_rho', lo=0.01, hi=25)
+                el._vsym_rho = id(E)
+    data = {}
+    if neutron:
+        for k, a in zip(keys, atoms):
+            data[k] = atom_data(a)
+    return T, atoms, data
